@@ -409,6 +409,19 @@ Definition metabolize (print_guarded : bool) (max_len : Z)
       end
   end.
 
+(* digest_glucose: the legacy string API = metabolize on the math pathway
+   followed by str() of the value; [str_guarded]: is that str() inside a
+   try/except Exception?  (generated from the source; true since 3e76390) *)
+Definition digest_glucose (str_guarded : bool) (r : mresult) (str_outcome : outcome unit) : mresult :=
+  match r with
+  | MSuccess v =>
+      match str_outcome with
+      | Returns _ => MSuccess v
+      | Raises => if str_guarded then MFailure else MRaised
+      end
+  | other => other
+  end.
+
 (* ---------------------------------------------------------------------- *)
 (* oracle tables recorded from the implementation (correspondence check)    *)
 
